@@ -113,6 +113,14 @@ def bitmap_scenarios(rng, tier):
         for k, ex in enumerate(expect):
             ls += ["dd.vals %d" % k, bitmap.expect_line(ex)]
         out.append(Scenario("bitmap-%d" % i, ls, {"family": "bitmap", "lastbit": info["bitmap"][-1], "tables": "cur"}))
+    # bit-maps over elements that include character inserts (2 05 YYY), operators, associated fields, replications:
+    # tied only (FM 94 leaves open whether 2 05 YYY counts as a data entity; the library counts it, and so does the model)
+    for i in range(60 if tier == "quick" else 1500):
+        msg, t, nsub = bitmap.build_wild(rng, B, D, compressed=(i % 3 == 0))
+        ls = ["T.use cur", "ds.decodemsg " + msg.hex()]
+        for k in range(nsub):
+            ls += ["dd.list %d" % k, "dd.vals %d" % k]
+        out.append(Scenario("bitmapw-%d" % i, ls, {"family": "bitmap-wild", "tables": "cur"}))
     return out
 
 def check_expect(scn, outs):
